@@ -9,6 +9,8 @@ from ..runner import HarnessError, Rec
 BOUNDARIES = [59999, 60000, 60001, 5999, 6000, 395999999, 396000000, 396000001, 499999999, 500000000, 399999999,
               400000000, 400000001, 0, 1, 9, 10, 99999, 100000, 999999, 1000000, 9999999999, 999999999, 1000000000]
 
+RANGES = [(0, 59999), (396000000, 499999999), (400000000, 499999999), (0, 999999)]     # documented "not checkable" / special ranges
+
 _STATE = {}
 
 
@@ -178,6 +180,12 @@ def accounts(rng, n_uniform, n_short, n_bodies):
         for d in (-2, -1, 0, 1, 2):
             if 0 <= b + d < 10 ** 10:
                 yield "boundary", f"{b + d:010d}"
+    # the interior of every documented special range, evenly (a gap in a hand-written list of sub-ranges lies inside)
+    for lo_, hi_ in RANGES:
+        n_in = max(200, n_uniform // 2)
+        step = max(1, (hi_ - lo_) // n_in)
+        for x in range(lo_, hi_ + 1, step):
+            yield "range-interior", f"{min(hi_, x + rng.randrange(step)):010d}"
     for _ in range(n_bodies):
         k = rng.choice((10, 10, 10, 9, 8, 7, 6))
         body = f"{rng.randrange(10 ** k):010d}"
@@ -214,7 +222,7 @@ def shard_method(arg):
             continue
         rec.classes[f"{m}-{'accept' if want else 'reject'}"] += 1
         rem = ode.remainder_info(m, acct)
-        if cls in ("boundary", "directed", "range", "sparse") or rem in (0, 1, 10):
+        if cls in ("boundary", "directed", "range", "sparse", "range-interior") or rem in (0, 1, 10):
             rec.nt.add(hash((m, acct)))
         if cls == "directed" and rec.classes[f"{m}-{'accept' if want else 'reject'}"] <= 1:
             rec.sample(f"{m}", {"method": m, "account": acct, "reference": want, "via_bank": blz})
